@@ -143,6 +143,26 @@ def recheck_props(prop, ctx):
     return res
 
 
+def run_coqchk(prop):
+    """thorough tier: re-check the property's compiled closure with the independent checker and list its axioms"""
+    mods = [f"MT.Props.{prop}"]
+    if os.path.exists(os.path.join(common.COQ, "Refuted", f"{prop}.vo")):
+        mods.append(f"MT.Refuted.{prop}")
+    cmd = ["coqchk", "-silent", "-o", "-Q", common.COQ, "MT"] + mods
+    try:
+        p = subprocess.run(["timeout", "2400"] + cmd, capture_output=True, text=True, cwd=common.COQ)
+    except Exception as e:
+        return {"cmd": " ".join(cmd), "ok": False, "summary": f"coqchk could not run: {e}"}
+    out = p.stdout + p.stderr
+    i = out.find("CONTEXT SUMMARY")
+    summary = out[i:].strip() if i >= 0 else out[-1500:]
+    axioms_none = bool(re.search(r"\* Axioms:\s*<none>", summary))
+    clean = all(re.search(pat, summary) for pat in (r"type-in-type:\s*<none>", r"unsafe \(co\)fixpoints:\s*<none>",
+                                                    r"positivity is assumed:\s*<none>"))
+    return {"cmd": " ".join(cmd), "ok": p.returncode == 0 and axioms_none and clean, "rc": p.returncode,
+            "summary": summary[:3000]}
+
+
 def load_findings():
     p = os.path.join(common.VERIF, "known_findings.json")
     if not os.path.exists(p):
@@ -191,6 +211,12 @@ def main(argv=None):
         proofs = {"ok": False, "msg": build_msg, "theorems": [], "assumptions": {}, "files": [], "cmds": []}
         if ok_build:
             proofs = recheck_props(prop, ctx)
+        coqchk = None
+        if ok_build and args.tier == "thorough" and not os.environ.get("VERIF_NO_COQCHK"):
+            coqchk = run_coqchk(prop)
+            if not coqchk["ok"]:
+                proofs["ok"] = False
+                proofs["msg"] = "coqchk -o does not accept the property's closure axiom-free: " + coqchk["summary"][-600:]
         if forb:
             proofs["ok"] = False
             proofs["msg"] = "forbidden declarations in the development: " + "; ".join(forb[:5])
@@ -270,6 +296,8 @@ def main(argv=None):
             "partial": getattr(mod, "PARTIAL", []),
             "exhaustive": bool(res.get("exhaustive", False)),
         }
+        if coqchk is not None:
+            cov["coqchk"] = coqchk
         for k in ("tie_error", "extra"):
             if k in res:
                 cov[k] = res[k]
